@@ -538,7 +538,7 @@ macro_rules! quick_shapes {
 pub fn run(tier: &str, only: Option<&str>) -> Vec<Grid> {
     let mut out = vec![];
     let lens_q: &[usize] = &[0, 1, 2, 3, 7];
-    let lens_t: &[usize] = &[0, 1, 2, 3, 7, 8, 9];
+    let lens_t: &[usize] = &[0, 1, 2, 3, 7, 8, 9, 15, 16, 17, 33];
     if only.is_none() || only == Some("pairs") {
         let mut g = Grid::new("c05.pairs", "every (header shape, element shape, length, constructor, release path) of the header-slice and thin families; a case is non-trivial when it allocates; distinct = distinct (shapes, min(len,3), constructor, release path)");
         let gr = &mut g;
